@@ -25,7 +25,7 @@ def main():
     if "--only" in sys.argv:
         only = [int(x) for x in sys.argv[sys.argv.index("--only") + 1].split(",")]
     env = dict(os.environ, CARGO_NET_OFFLINE="true")
-    for k in range(1, 10):
+    for k in range(1, 16):
         diff = os.path.join(out, f"m{k}.diff")
         if not os.path.exists(diff) or (only and k not in only):
             continue
